@@ -76,8 +76,7 @@ def specOr (dom : Bool) (s : Option String) : String :=
     unless util.rs changes EPS, and then the crate's answers are judged against the property, not against itself. -/
 def propEps : Float := Float.ofBits 0x3e112e0be826d695
 
-def handle (line : String) : String :=
-  match tokens line with
+def handleToks (full : Bool) (line : String) : List String → String
   | "cl" :: mode :: e :: t1 :: t2 :: t3 :: rest =>
     match parseNum? e, parseNum? t1, parseNum? t2, parseNum? t3 with
     | some eps, some cx, some cy, some r =>
@@ -88,9 +87,9 @@ def handle (line : String) : String :=
         let resP := intersectCL (floatGeo propEps) ⟨⟨cx, cy⟩, r⟩ l.fl
         let qc : QCircle := ⟨⟨qOf cx, qOf cy⟩, qOf r⟩
         let dom := l.dom && coordOk cx && coordOk cy && radiusOk r
-        if mode = "K" then answer3 (showCL res) resP.kind (specOr dom (specKindCL qc l.q))
+        if mode = "K" then answer3 (showCL full res) resP.kind (specOr dom (specKindCL qc l.q))
         else if mode = "P" then
-          answer3 (showCL res) (okOff (allNear resP.points fun p => nearCircle qc p && nearLine l.q p)) (if dom then "ok" else "any")
+          answer3 (showCL full res) (okOff (allNear resP.points fun p => nearCircle qc p && nearLine l.q p)) (if dom then "ok" else "any")
         else badLine line
       | _ => badLine line
     | _, _, _, _ => badLine line
@@ -106,9 +105,9 @@ def handle (line : String) : String :=
       -- centres coincide exactly or are well separated
       let dom := coordOk ax && coordOk ay && coordOk bx && coordOk by' && radiusOk ar && radiusOk br
         && (d2.isZero || (Q.tenPowNeg 2).le d2)
-      if mode = "K" then answer3 (showCC res) resP.kind (specOr dom (specKindCC qa qb))
+      if mode = "K" then answer3 (showCC full res) resP.kind (specOr dom (specKindCC qa qb))
       else if mode = "P" then
-        answer3 (showCC res) (okOff (allNear resP.points fun p => nearCircle qa p && nearCircle qb p)) (if dom then "ok" else "any")
+        answer3 (showCC full res) (okOff (allNear resP.points fun p => nearCircle qa p && nearCircle qb p)) (if dom then "ok" else "any")
       else badLine line
     | _, _ => badLine line
   | "ll" :: mode :: e :: rest =>
@@ -124,14 +123,14 @@ def handle (line : String) : String :=
           let par := parallel G u.fl v.fl
           let raw := (match res with
             | none => "None"
-            | some p => "Some " ++ showPoint p) ++ " par=" ++ showBool par
+            | some p => "Some " ++ showPoint full p) ++ " par=" ++ showBool par
           let dom := u.dom && v.dom
           if mode = "K" then
             answer3 raw (llKind resP) (specOr dom (specKindLL u.q v.q))
           else if mode = "P" then
-            -- well-conditioned: |sin| ≥ 1e-2 and the exact intersection point within the coordinate range
+            -- well-conditioned: |sin| ≥ 1e-4 and the exact intersection point within the coordinate range
             let (pt, det) := specPointLL u.q v.q
-            let wc := (Q.tenPowNeg 4 * (u.q.n2 * v.q.n2)).le det.sq
+            let wc := (Q.tenPowNeg 8 * (u.q.n2 * v.q.n2)).le det.sq
               && pt.x.abs.le (thousand * det.abs) && pt.y.abs.le (thousand * det.abs)
             answer3 raw (okOff (allNear resP.toList fun p => nearLine u.q p && nearLine v.q p))
               (if dom && wc then "ok" else "any")
@@ -159,7 +158,7 @@ def handle (line : String) : String :=
           let res := showBool (lineContains G l.fl ⟨px, py⟩)
           let resP := showBool (lineContains (floatGeo propEps) l.fl ⟨px, py⟩)
           let dom := l.dom && coordOk px && coordOk py
-          answer3 (res ++ " " ++ showNum (lineDist G l.fl ⟨px, py⟩)) resP (specOr dom (specContains l.q ⟨qOf px, qOf py⟩))
+          answer3 (res ++ " " ++ showNum full (lineDist G l.fl ⟨px, py⟩)) resP (specOr dom (specContains l.q ⟨qOf px, qOf py⟩))
         | _, _ => badLine line
       | _ => badLine line
     | none => badLine line
@@ -169,7 +168,7 @@ def handle (line : String) : String :=
       let G := floatGeo eps
       match parseLine G rest with
       | some (l, []) =>
-        let raw := showNum l.fl.a ++ " " ++ showNum l.fl.b ++ " " ++ showNum l.fl.c
+        let raw := showNum full l.fl.a ++ " " ++ showNum full l.fl.b ++ " " ++ showNum full l.fl.c
         -- view: the stored normal has unit length (to 1e-9) and the stored line is the exact line
         -- (two points of the exact line about one unit apart are within 1e-7 of the stored one)
         let view :=
@@ -194,5 +193,11 @@ def handle (line : String) : String :=
       | _ => badLine line
     | none => badLine line
   | _ => badLine line
+
+/-- a leading `bits` token asks for full bit patterns in the raw column (diagnostic sample only) -/
+def handle (line : String) : String :=
+  match tokens line with
+  | "bits" :: rest => handleToks true line rest
+  | toks => handleToks false line toks
 
 def main : IO Unit := driverMain handle
